@@ -570,6 +570,21 @@ def reconnectLoop (c : Cfg) : Nat → St → St × R Unit
     let (s, ok) := waitUntil c s (s.now + c.reconnect)
     if !ok then (s, .halt) else rlNext (reconnectLoop c n) (setSock c s true)
 
+/-- `setSock` as the code has it since F18's repair: `if reconnecting and not self.keep_running: teardown(); return` first
+    (generated fact `appReconnectGuard`). -/
+def setSockG (c : Cfg) (s : St) (rc : Bool) : St × R Unit :=
+  if Gen.appReconnectGuard && rc && !s.keepRunning then teardown c s none else setSock c s rc
+
+/-- the reconnect loop over the guarded `setSock`.  In this model nothing changes `keep_running` between the test at the head
+    of the loop and the call (there is no second thread here), so the guard is never taken: `C15b.reconnectLoopG_eq`. -/
+def reconnectLoopG (c : Cfg) : Nat → St → St × R Unit
+  | 0, s => (s.emit .outOfFuel, .halt)
+  | n + 1, s =>
+    if !s.keepRunning then (s, .ok ()) else
+    let s := s.emit (.sleep c.reconnect)
+    let (s, ok) := waitUntil c s (s.now + c.reconnect)
+    if !ok then (s, .halt) else rlNext (reconnectLoopG c n) (setSockG c s true)
+
 /-- the argument validation of run_forever (before anything is touched) -/
 def argsAccepted (iv : Int) (to : Option Int) : Bool :=
   !(match to with | some t => decide (t ≤ 0) | none => false) &&
